@@ -77,11 +77,30 @@ func main() {
 			}
 		}
 		turns := make([]uint64, n) // the local turn counter of every server (the hook counts the same way)
+		// fail = 0: no failure; 1: every DB operation of the turn fails; k > 1: the operations fail from the k-th on (the
+		// read succeeds, then getting a session, the vote or the read after it fail): all failures happen before the
+		// operation is issued (expired deadline), so the outcome is deterministic
+		var turnK func(i int, failAt int)
 		turn := func(i int, cancelled bool) {
+			if cancelled {
+				turnK(i, 1)
+			} else {
+				turnK(i, 0)
+			}
+		}
+		turnK = func(i int, failAt int) {
+			cancelled := failAt == 1
 			before := views()[i]
-			ms[i].Turn(cancelled)
+			if failAt <= 1 {
+				ms[i].Turn(cancelled)
+			} else {
+				sc := newStepCtx(0, 0)
+				sc.expireAt = failAt
+				ms[i].TurnCtx(sc)
+				run.Count(fmt.Sprintf("c14:turn_failing_from_operation_%d", failAt))
+			}
 			turns[i]++
-			op := map[string]interface{}{"op": "turn", "srv": i, "cancel": cancelled}
+			op := map[string]interface{}{"op": "turn", "srv": i, "cancel": cancelled, "fail": failAt}
 			ops = append(ops, op)
 			run.OpLine(op)
 			inst, tick := record()
@@ -122,7 +141,7 @@ func main() {
 			// a turn without failures of the server the record names (as leader, or as a follower that finds its own id
 			// there and resumes) refreshes the record with the server's own current turn number: that is what lets the
 			// others see it is alive
-			if !cancelled && inst == id {
+			if failAt == 0 && inst == id {
 				run.Count("c14:holder_turn_checked")
 				if tick != turns[i] {
 					fail("renewal_visible", "holder-turn-did-not-refresh-record", fmt.Sprintf("server %d took turn %d without failures while the record names it, but the record carries turn %d: its renewal is invisible to the others", id, turns[i], tick))
@@ -148,7 +167,14 @@ func main() {
 					paused[i] = 3 + r.Intn(8)
 					continue
 				}
-				turn(i, r.Intn(15) == 0)
+				switch x := r.Intn(30); {
+				case x < 2:
+					turnK(i, 1)
+				case x < 5:
+					turnK(i, 2+r.Intn(3))
+				default:
+					turnK(i, 0)
+				}
 			}
 		}
 		// phase 2: round-fair, no failures: a leader emerges, then it is stable under renewal
@@ -389,6 +415,7 @@ type stepCtx struct {
 	n         int
 	pauseAt   int
 	abandonAt int
+	expireAt  int // from this operation on the deadline has passed: operations fail before they are issued
 	paused    chan struct{}
 	resume    chan struct{}
 	done      chan struct{}
@@ -413,6 +440,9 @@ func (c *stepCtx) Deadline() (time.Time, bool) {
 	if c.pauseAt > 0 && n == c.pauseAt {
 		close(c.paused)
 		<-c.resume
+	}
+	if c.expireAt > 0 && n >= c.expireAt {
+		return time.Now().Add(-time.Hour), true
 	}
 	return time.Now().Add(time.Hour), true
 }
